@@ -1,4 +1,5 @@
 #![cfg_attr(docsrs, feature(doc_cfg))]
+#![allow(unexpected_cfgs)] // `--cfg s3s_verif` enables `verif_hooks`
 #![allow(
     clippy::bool_assert_comparison,  // I don't like `assert!(!expression)`. It's very misleading.
     clippy::multiple_crate_versions, // Sometimes not fixable
@@ -47,3 +48,6 @@ pub use self::protocol::HttpRequest;
 pub use self::protocol::HttpResponse;
 pub use self::protocol::S3Request;
 pub use self::protocol::S3Response;
+
+#[cfg(s3s_verif)]
+pub mod verif_hooks;
